@@ -725,3 +725,60 @@ func c16RepairNative(img []byte, second bool) {
 func VF_C16_repair_quick()         { c16Repair(false, 12) }
 func VF_C16_repair_thorough()      { c16Repair(false, 30) }
 func VF_C16_repair_second_segment() { c16Repair(true, 0) }
+
+// C08 (crash-restart keeps what was acknowledged) depends on the same obligation from the node's side:
+// raftexample answers a vote request only after wal.Save returned, and Save decides whether to flush
+// and fsync through raft.MustSync - a Save that only changes the vote must reach the disk.
+func VF_C08_vote_durable() { VF_C16_crash_voteonly() }
+
+// ---------------------------------------------------------------------------
+// VF_C16_segment_name: Open chooses the segment to start reading from by the index in its file name, so the
+// name cut() gives the next segment must be (index of the last record appended so far)+1 - also after
+// a snapshot record that lies behind the log head (the applied index trails the appended index), whatever
+// follows it. Symbolically the obligation is discharged on the writer state cut() reads (w.enti, for
+// every entry count / snapshot position / trailing state-only Save); natively the same inputs go through
+// the real Create / Save / SaveSnapshot / cut / Open / ReadAll on a temp directory.
+func VF_C16_segment_name() {
+	n := 1 + vfChoice("entries", 3)
+	s := uint64(vfChoice("snapindex", n+3))
+	trailing := vfChoice("trailing-state-save", 2) == 1
+	head := uint64(n)
+	if s > head {
+		head = s
+	}
+	if !vfIsSymbolic() {
+		dir, _ := os.MkdirTemp("", "vfwalcut")
+		defer os.RemoveAll(dir)
+		w, err := Create(zap.NewNop(), dir, []byte("meta"))
+		vfAssert(err == nil, "segment-name-create")
+		var ents []raftpb.Entry
+		for i := 1; i <= n; i++ {
+			ents = append(ents, raftpb.Entry{Term: 1, Index: uint64(i)})
+		}
+		vfAssert(w.Save(raftpb.HardState{Term: 1, Commit: uint64(n)}, ents) == nil, "segment-name-save")
+		vfAssert(w.SaveSnapshot(walpb.Snapshot{Index: s, Term: 1, ConfState: &raftpb.ConfState{Voters: []uint64{1}}}) == nil, "segment-name-savesnapshot")
+		if trailing {
+			vfAssert(w.Save(raftpb.HardState{Term: 2, Commit: uint64(n)}, nil) == nil, "segment-name-save")
+		}
+		vfAssert(w.cut() == nil, "segment-name-cut")
+		w.Close()
+		names, _ := readWALNames(zap.NewNop(), dir)
+		_, idx, perr := parseWALName(names[len(names)-1])
+		vfAssert(perr == nil && idx == head+1, "next-segment-name-behind-log-head")
+		return
+	}
+	c16Stubs()
+	w, _, _ := c16Writer(3, 128)
+	b := c16MkBatch("done", 1, n, 0)
+	vfAssert(w.Save(b.st, b.ents) == nil, "segment-name-save")
+	vfAssert(w.enti == uint64(n), "segment-name-head-after-save")
+	vfAssert(w.SaveSnapshot(walpb.Snapshot{Index: s, Term: 1, ConfState: &raftpb.ConfState{Voters: []uint64{1}}}) == nil, "segment-name-savesnapshot")
+	if trailing {
+		st := b.st
+		st.Term++
+		vfAssert(w.Save(st, nil) == nil, "segment-name-save")
+	}
+	vfAssert(w.enti+1 == head+1, "next-segment-name-behind-log-head")
+}
+
+func VF_C08_segment_name() { VF_C16_segment_name() }
